@@ -21,6 +21,8 @@ This file fixes the vocabulary:
 
 variable {σ : Type}
 
+namespace Conserve
+
 /-! ## request events, immutable part of a request record -/
 
 /-- the event is a resource request (`Put`/`Get` of some resource) -/
@@ -276,19 +278,19 @@ theorem SafeReach.toReach {body : σ → Resume → Burst ℚ σ} {fuel : Nat} {
 
 /-! ### a static sufficient condition: the program never calls `succeed`/`fail` at all -/
 
-def Call.isTrig : Call ℚ σ → Bool
+def callIsTrig : Call ℚ σ → Bool
   | .succeed _ _ => true
   | .fail _ _ => true
   | _ => false
 
 /-- the burst contains no `succeed`/`fail` call, whatever the replies -/
-inductive Burst.NoTrig : Burst ℚ σ → Prop
-  | call (c : Call ℚ σ) (k : Reply → Burst ℚ σ) : c.isTrig = false → (∀ rp, Burst.NoTrig (k rp)) → Burst.NoTrig (.call c k)
-  | yield (e : EvId) (st : σ) : Burst.NoTrig (.yield e st)
-  | ret (v : Val) : Burst.NoTrig (.ret v)
-  | raise (x : Exc) : Burst.NoTrig (.raise x)
+inductive NoTrig : Burst ℚ σ → Prop
+  | call (c : Call ℚ σ) (k : Reply → Burst ℚ σ) : callIsTrig c = false → (∀ rp, NoTrig (k rp)) → NoTrig (.call c k)
+  | yield (e : EvId) (st : σ) : NoTrig (.yield e st)
+  | ret (v : Val) : NoTrig (.ret v)
+  | raise (x : Exc) : NoTrig (.raise x)
 
-theorem burstOK_of_noTrig (self : EvId) (b : Burst ℚ σ) (h : b.NoTrig) (s : KState ℚ σ) : burstOK self b s := by
+theorem burstOK_of_noTrig (self : EvId) (b : Burst ℚ σ) (h : NoTrig b) (s : KState ℚ σ) : burstOK self b s := by
   induction h generalizing s with
   | call c k hc _ ih =>
     refine ⟨?_, ih _ _⟩
@@ -297,7 +299,7 @@ theorem burstOK_of_noTrig (self : EvId) (b : Burst ℚ σ) (h : b.NoTrig) (s : K
   | ret => trivial
   | raise => trivial
 
-theorem resumeOK_of_noTrig (body : σ → Resume → Burst ℚ σ) (h : ∀ st rs, (body st rs).NoTrig) (p : EvId) (fuel : Nat)
+theorem resumeOK_of_noTrig (body : σ → Resume → Burst ℚ σ) (h : ∀ st rs, NoTrig (body st rs)) (p : EvId) (fuel : Nat)
     (e : EvId) (s : KState ℚ σ) : resumeOK body p fuel e s := by
   induction fuel generalizing e s with
   | zero => trivial
@@ -313,7 +315,7 @@ theorem resumeOK_of_noTrig (body : σ → Resume → Burst ℚ σ) (h : ∀ st r
         · exact ih _ _
       · trivial
 
-theorem stepOK_of_noTrig (body : σ → Resume → Burst ℚ σ) (h : ∀ st rs, (body st rs).NoTrig) (fuel : Nat)
+theorem stepOK_of_noTrig (body : σ → Resume → Burst ℚ σ) (h : ∀ st rs, NoTrig (body st rs)) (fuel : Nat)
     (s : KState ℚ σ) : stepOK body fuel s := by
   have hcb : ∀ e l cb, runCbOK body fuel e l cb := by
     intro e l cb
@@ -345,8 +347,10 @@ theorem stepOK_of_noTrig (body : σ → Resume → Burst ℚ σ) (h : ∀ st rs,
     · exact hfold _ _ _
 
 /-- for programs that never call `succeed`/`fail`, every reachable state is reachable inside the domain -/
-theorem safeReach_of_noTrig (body : σ → Resume → Burst ℚ σ) (h : ∀ st rs, (body st rs).NoTrig) (fuel : Nat)
+theorem safeReach_of_noTrig (body : σ → Resume → Burst ℚ σ) (h : ∀ st rs, NoTrig (body st rs)) (fuel : Nat)
     (s0 s : KState ℚ σ) (hr : KReach body fuel s0 s) : SafeReach body fuel s0 s := by
   induction hr with
   | init => exact SafeReach.init
   | step _ hs ih => exact SafeReach.step ih (stepOK_of_noTrig body h fuel _) hs
+
+end Conserve
